@@ -1,7 +1,17 @@
-"""C18  Magic memories act as one in-order memory whatever the timing parameters.
+"""C18  Magic memories act as one in-order memory whatever the timing parameters: MagicMem.tla model-checked,
+Process steps replayed on MagicMemoryFL, Send/Process/Deliver histories of MagicMemoryCL and stream.MagicMemoryRTL
+validated by MagicMemTrace -- directly and through the interface adapters / connect hooks of mem_ifcs.py and
+stream/fl.py (FL, CL and RTL masters), which must be transparent; the components that make timing change only
+WHEN (DelayPipeDeqCL, DelayPipeSendCL, StallCL) as a state machine of their own: DelayPipe.tla model-checked
+(FIFO order, nothing lost / duplicated / invented, not before t + delay, occupancy), every transition of its state
+graph replayed on the real classes, long random histories validated by DelayPipeTrace with the stall decisions
+logged and again inferred by TLC.
 
 spec/MagicMem.tla (byte memory + per-port inflight / resp FIFOs; Send, Process, Deliver; no timing in
-the data path), spec/MagicMemMC.tla (menus from JSON), spec/MagicMemTrace.tla (trace validation).
+the data path), spec/MagicMemMC.tla (menus from JSON), spec/MagicMemTrace.tla (trace validation);
+spec/DelayPipe.tla (DelayPipeDeqCL / DelayPipeSendCL / StallCL as a state machine, one action per
+clock cycle), spec/DelayPipeTrace.tla (trace validation).  Helper modules: harness/c18_drv.py,
+c18_pipe.py, c18_pipecheck.py, c18_adp.py.
   1. TLC checks Conservation, ResponseOrder, ProcessOrder, SequentialImage (history variable),
      ReadsSeeLatestStore, AmoAtomic, ResponsesFromHistory on 2 ports x <= 3 requests over two
      overlapping word addresses with sub-word lengths, all interleavings of Send/Process/Deliver.
@@ -19,21 +29,68 @@ the data path), spec/MagicMemMC.tla (menus from JSON), spec/MagicMemTrace.tla (t
      AMO response that is not the old value must be rejected (linear and inferred mode); hand-written
      one-request histories: an amo.add applied once is accepted, applied twice / applied and never
      answered / answered and never applied / answered with the new value are rejected in both modes.
-The TLC runs of 1 and 2 are started first and run beside 3-5 (they need nothing from them).
+  6. the memories behind the interface adapters (c18_adp.py): FL masters -> MemMasterIfcFL.connect hook
+     -> MemIfcFL2CLAdapter -> MagicMemoryCL; CL masters -> MemIfcCL2FLAdapter -> MagicMemoryFL; en/rdy
+     MemMasterIfcRTL ports -> by-name connect hooks (RecvRTL2SendCL / RecvCL2SendRTL) -> MagicMemoryCL
+     (latency 0-5: the delay-0 bypass pipes too); FL masters -> stream.fl.MemMasterAdapter ->
+     stream.MagicMemoryRTL; FL sender / receiver blocks -> stream.fl.SendQueueAdapter / RecvQueueAdapter
+     -> stream.MagicMemoryRTL.  Every run is validated by the SAME MagicMemTrace (logged processing
+     order; a subset again with the order inferred); race-free streams must give the contents and the
+     image of the direct connection; an exception inside the simulated design is a violation keyed by
+     the request class it hit.  Chains whose adapter cannot be constructed on this tree
+     (MemMinionIfcFL.connect for CL masters, MemIfcFL2RTLAdapter, MemIfcRTL2FLAdapter) are built on every
+     run, recorded in the evidence while they raise at construction, and checked like the others as soon
+     as they can be built.  Canaries: the previous response returned again, a lost memory call, a wrong
+     final byte.
+  7. delay pipes and the random stall (c18_pipe.py, c18_pipecheck.py): TLC checks DelayPipe.tla for both
+     kinds, delay 0..3 (thorough 0..5), with and without a StallCL in front: Conservation / FifoOrder
+     (nothing lost, duplicated, invented, reordered), Occupancy (never more in flight than slots),
+     NotEarly (accepted in cycle t => not delivered before t + delay), Punctual (never held => at the
+     exit exactly in t + delay), StallIsIdle (a stalled cycle = a cycle without an offer), per-action
+     coverage of the eight outcome classes, and a model canary (NotEarly is tight).
+     spec -> code: the dumped state graph of every configuration (delay 0..3, thorough 0..4) is covered
+     by paths; every transition is replayed on the real DelayPipeDeqCL / DelayPipeSendCL inside a top with
+     a producer block, a consumer block (DelayPipeSendCL: a CL callee with a controllable rdy), peek();
+     pymtl3's M()/U() constraints order the blocks, both producer/consumer orders where the pipe leaves
+     it open; with StallCL the walk dictates the draw; rdy / transfer bits, the message at the exit and
+     list(pipeline) are compared after every cycle.
+     code -> spec: long bursty histories with serial-number payloads, delays 0..8 (thorough ..11), and
+     StallCL (probabilities .2/.5/.8, several seeds; the seeded stream decides) in front of delays 0..3,
+     validated by DelayPipeTrace: linear with the draws read from the tapped stream, and again with the
+     stall decisions, the enq side and the slots removed (TLC infers the decisions: the stall may only
+     choose WHEN).  Canaries: a software pipe that delivers one cycle early / swaps two messages / drops
+     one is rejected by the walk and by the trace module (the fault-free one is accepted); corrupted real
+     histories (content changed, swapped, vanished, duplicated, rdy flipped, slot changed; inferred mode:
+     swapped, vanished, changed, one cycle early) are rejected.
+The TLC runs of 1, 2 and 7 are started first and run beside 3-6 (they need nothing from them).
 
-NOTE: Trusted base: TLC, spec/MagicMem.tla as the statement, harness/c18_drv.py (sources, sinks, the
-wrapper around the MagicMemoryFL instance's read/write/amo, val/rdy sampling after each sim_tick).
+NOTE: Trusted base: TLC, spec/MagicMem.tla and the (S) clauses of spec/DelayPipe.tla / DelayPipeTrace.tla
+as the statement, harness/c18_drv.py, c18_adp.py, c18_pipe.py (sources, sinks, masters, the wrapper around
+the MagicMemoryFL instance's read/write/amo -- also behind the callee ports of MagicMemoryFL.ifc --,
+val/rdy sampling after each sim_tick, the tap on StallCL's random stream, reading list(pipeline)).
 Assumptions: AMOs are word-sized (len = 0); 32-bit data, 8-bit opaque messages; accesses stay in a
 16-24 byte window (the rest of the memory is checked to stay zero); INV/FLUSH only on the CL memory
-(the stream memory asserts on them); response `len`/`test` fields and the data field of write
-responses are not constrained by the statement and not compared; of a sub-word read response only the
-requested bytes are compared.  The statement does not tie the processing point to the val/rdy
+(the stream memory asserts on them; the FL interfaces have no such call); response `len`/`test` fields
+and the data field of write responses are not constrained by the statement and not compared; of a
+sub-word read response only the requested bytes are compared; an FL master observes only the returned
+data (type / opaque of its Deliver event are those of its request).  The statement does not tie the
+processing point to the val/rdy
 handshake: a memory call that serves no accepted, unprocessed request (e.g. a request of the stream
 memory that is presented but not yet accepted -- MagicMemoryRTL evaluated those before 1fc3b85) is a
 violation only if the run is not observably sequential, i.e. if no order of applying every request
 exactly once between the cycle it is first presented and its response explains all responses and the
 final image (decided by the inferred-order mode).  A request applied twice with a visible effect, or
 applied and never accepted / answered, has no such order.
+MODEL OF THE CODE (not fixed by the statement, modelled after DelayPipeCL.py / StallCL.py and flagged as
+such in the violation text): the exact ready timing of the pipes -- the number of slots (delay + 1 /
+delay), the inelastic hold of the whole DelayPipeDeqCL while its last slot is occupied, enq.rdy = slot 0
+empty after the cycle's advance, the delay-0 forms (DelayPipeDeqCL: one slot, enq before deq, same-cycle
+bypass; DelayPipeSendCL: enq is send), Punctual, and StallCL's rdy = (one draw per evaluation > stall_prob)
+and downstream rdy.  Statement-level clauses of the pipe part: order, content, nothing lost / duplicated
+/ invented, not before t + delay, occupancy, and "no stall decisions explain the history".
+A chain that cannot be constructed carries no request stream, so the statement says nothing about it;
+an FL master in front of a latency-0 MagicMemoryCL is a combinational loop (the adapter answers in the
+cycle of the response) which pymtl3 refuses to schedule: FL chains use latency >= 1.
 """
 import collections
 import copy
@@ -56,6 +113,17 @@ AMOS = list(range(3, 12))
 EDGE = [0, 1, 2, 0x7f, 0x80, 0xff, 0x100, 0x7fff, 0x8000, 0xffff, 0x10000, 0x7fffffff, 0x80000000,
         0x80000001, 0xfffffffe, 0xffffffff, 0x00ff00ff, 0xff00ff00]
 NEEDS_CONFIRMATION = "applied-without-accepted-request"
+IMPL_NAMES = {
+    "cl": "MagicMemoryCL", "rtl": "stream.MagicMemoryRTL",
+    "fl2cl": "MagicMemoryCL behind MemIfcFL2CLAdapter (FL masters, MemMasterIfcFL.connect hook)",
+    "cl2fl": "MagicMemoryFL behind MemIfcCL2FLAdapter (CL masters)",
+    "cl2fl_hook": "MagicMemoryFL behind MemIfcCL2FLAdapter (CL masters, MemMinionIfcFL.connect hook)",
+    "rtl2cl": "MagicMemoryCL behind RecvRTL2SendCL / RecvCL2SendRTL (en/rdy MemMasterIfcRTL ports, by-name connect hooks)",
+    "fl2rtl2cl": "MagicMemoryCL behind MemIfcFL2RTLAdapter (FL masters -> en/rdy ports -> connect hooks)",
+    "rtl2fl": "MagicMemoryFL behind MemIfcRTL2FLAdapter (en/rdy master ports, MemMinionIfcFL.connect hook)",
+    "stream_fl": "stream.MagicMemoryRTL behind stream.fl.MemMasterAdapter (FL masters)",
+    "stream_q": "stream.MagicMemoryRTL behind stream.fl.SendQueueAdapter / RecvQueueAdapter",
+}
 
 
 def _le(v, n=4):
@@ -410,8 +478,18 @@ def _job(j):
     """Runs in a worker process: build + simulate one configuration, return the trace."""
     import c18_drv as D
     try:
-        f = D.run_cl if j["impl"] == "cl" else D.run_rtl
-        t = f(j["streams"], j["cfg"], j["W"], j["init"])
+        if j["impl"] in ("cl", "rtl"):
+            f = D.run_cl if j["impl"] == "cl" else D.run_rtl
+            t = f(j["streams"], j["cfg"], j["W"], j["init"])
+        else:                   # an adapter chain (c18_adp.CHAINS)
+            import c18_adp as A
+            import random as _random
+            import zlib
+            _random.seed(zlib.crc32(j["tag"].encode()))      # pymtl3's scheduler breaks ties with the global module
+            t = A.run_chain(j["impl"], j["streams"], j["cfg"], j["W"], j["init"])
+            if "exc" in t or "noconstruct" in t:
+                t["job"] = j
+                return t
     except Exception as ex:     # an exception inside the simulated design is reported, not swallowed
         import traceback
         return {"exc": "%s: %s" % (type(ex).__name__, ex), "tb": traceback.format_exc()[-1500:], "job": j}
@@ -590,7 +668,7 @@ def _report(res, t, err, pos, suffix=""):
                 "once explains the responses and the final image)")
     res.violation("%s:%s:%s%s" % (j["impl"], err, op, suffix),
                   "Magic memory %s (%d ports, %s): %s at event %d %s%s"
-                  % ("MagicMemoryCL" if j["impl"] == "cl" else "stream.MagicMemoryRTL", t["np"],
+                  % (IMPL_NAMES.get(j["impl"], j["impl"]), t["np"],
                      {k: v for k, v in j["cfg"].items() if not k.endswith("delays")}, err, pos, e, expl),
                   {"clause": err, "event_index": pos, "event": e, "run": _describe(t),
                    "events": t["ev"][:400], "final": t["final"]})
@@ -610,8 +688,10 @@ def _post(res, traces):
     for t in traces:
         j = t["job"]
         if "exc" in t:
-            res.violation("%s:exception:%s" % (j["impl"], t["exc"].split(":")[0]),
-                          "simulating the magic memory raised %s" % t["exc"],
+            res.violation("%s:exception:%s%s" % (j["impl"], t["exc"].split(":")[0],
+                                                 ":" + t["pending"] if "pending" in t else ""),
+                          "simulating %s raised %s%s" % (IMPL_NAMES.get(j["impl"], j["impl"]), t["exc"],
+                                                         " (oldest unanswered request: %s)" % t["pending"] if "pending" in t else ""),
                           {"run": {"impl": j["impl"], "cfg": j["cfg"], "streams": j["streams"]}, "tb": t["tb"]})
             continue
         if t["hung"]:
@@ -753,6 +833,164 @@ def _timing_independence(res, quick):
         "groups": ngroups, "timing_configs_per_group": 2 * ncfg, "race_free_groups_identical_contents": same,
         "racy_groups_with_several_legal_outcomes": differ_racy,
         "groups_with_a_member_rejected_by_the_spec": skipped})
+
+
+# ==============================================================================================
+# 6. the memories behind the interface adapters
+# ==============================================================================================
+
+# chains that can be built on the pinned tree: failing to build one of them is a violation
+_REQUIRED_CHAINS = ("fl2cl", "cl2fl", "rtl2cl", "stream_fl", "stream_q")
+# chains whose adapter / connect hook cannot be constructed on the pinned tree (no request ever
+# flows, so the statement says nothing about them): built on every run, checked like the others as
+# soon as they can be built, recorded in the evidence otherwise
+_PROBED_CHAINS = ("cl2fl_hook", "fl2rtl2cl", "rtl2fl")
+
+
+def _whole_word_reads(streams, regions, w):
+    """the same streams with every sub-word read widened to the word (kept inside the port's region)"""
+    out = []
+    for p, st in enumerate(streams):
+        lo, hi = regions[p] if regions else (0, w)
+        out.append([dict(r, n=0, a=max(lo, min(r["a"], hi - 4))) if (r["t"] == 0 and r["n"] != 0) else r for r in st])
+    return out
+
+
+def _adapters(res, quick):
+    """FL / CL / RTL masters connected to the memories through the interface adapters: every run is
+    validated by MagicMemTrace (the processing order is logged); race-free streams must give the
+    contents of the direct connection."""
+    import c18_adp as A
+    R = rng("c18/adapters")
+    ngroups = 12 if quick else 180
+    chains = _REQUIRED_CHAINS + _PROBED_CHAINS
+    jobs, groups = [], []
+    for g in range(ngroups):
+        np_ = R.choice([1, 2, 2, 3])
+        racefree = g % 4 != 3
+        w = 8 * np_ if racefree else 16
+        regions = [(8 * p, 8 * p + 8) for p in range(np_)] if racefree else None
+        streams, prof = _gen_streams(R, np_, 8 if quick else 12, w, regions=regions, inv=False)
+        if g % 3 == 1:
+            streams = _whole_word_reads(streams, regions, w)
+        init = [R.randrange(256) for _ in range(w)]
+        members = []
+        for impl in ("cl",) + chains:
+            base = "rtl" if impl.startswith("stream") else "cl"
+            cfg = _timing(R, base, streams)
+            if base == "cl":
+                # latency 0 (bypass pipes) as well -- except behind an FL master, whose adapter answers in
+                # the cycle of the response (M(read) > M(resp)): with a 0-cycle memory that is a
+                # combinational loop, which pymtl3 refuses to schedule
+                cfg["latency"] = R.randint(1 if impl in A.FL_CHAINS else 0, 5)
+            members.append(len(jobs))
+            jobs.append(_mk_job(impl, streams, cfg, w, init, "adp/%d/%s/%s" % (g, impl, prof)))
+        groups.append((racefree, members))
+    raw = _run_jobs(jobs)
+    # chains that cannot be constructed
+    nocon = collections.defaultdict(collections.Counter)
+    built = collections.Counter()
+    for t in raw:
+        impl = t["job"]["impl"]
+        if "noconstruct" in t:
+            nocon[impl][t["noconstruct"].split(":")[0]] += 1
+            if impl in _REQUIRED_CHAINS or impl == "cl":
+                res.violation("%s:not-constructible:%s" % (impl, t["noconstruct"].split(":")[0]),
+                              "%s cannot be built / elaborated / scheduled: %s" % (IMPL_NAMES[impl], t["noconstruct"]),
+                              {"run": {"impl": impl, "cfg": t["job"]["cfg"], "streams": t["job"]["streams"]}})
+        else:
+            built[impl] += 1
+            if "inserted" in t and "exc" not in t:
+                res.note("adapters_inserted_" + impl, sorted(set(t["inserted"])))
+    for impl in _PROBED_CHAINS:
+        if nocon[impl] and built[impl]:
+            raise MachineryError("chain %s is built in some runs and not in others: %s" % (impl, dict(nocon[impl])))
+    res.note("adapter_chains_not_constructible_on_this_tree",
+             {impl: {"what": IMPL_NAMES[impl], "raises": dict(nocon[impl])} for impl in _PROBED_CHAINS if nocon[impl]})
+    res.note("adapter_chains_driven", {impl: built[impl] for impl in ("cl",) + chains if built[impl]})
+    usable = _post(res, [t for t in raw if "noconstruct" not in t])
+    res.add_evals(sum(len(t["ev"]) for t in usable))
+    for t in usable:
+        j = t["job"]
+        res.distinct((j["impl"], len(j["streams"]), j["cfg"].get("latency", j["cfg"].get("extra_latency")),
+                      j["cfg"]["stall_prob"], json.dumps(j["streams"], sort_keys=True)))
+    good = _judge(res, usable, "adapters")
+
+    # transparency: the contents (type, requested bytes; the opaque field where the master sees it)
+    # and the final image of race-free streams equal those of the direct connection
+    def contents(t, with_opaque):
+        per = collections.defaultdict(list)
+        for e in t["ev"]:
+            if e["k"] == "dlv":
+                nb = 0 if e["t"] == 1 else (4 if (e["t"] in AMOS or e["n"] == 0) else e["n"])
+                per[e["p"]].append((e["t"], e["o"] if with_opaque else 0, tuple(e["d"][:nb])))
+        return (tuple(tuple(per[p]) for p in range(t["np"])), tuple(t["final"]))
+
+    compared = 0
+    for racefree, members in groups:
+        ms = [raw[i] for i in members]
+        ref = ms[0]
+        if not racefree or not ref.get("verdict", "").startswith("ok"):
+            continue
+        for t in ms[1:]:
+            if not t.get("verdict", "").startswith("ok"):
+                continue
+            op = t["job"]["impl"] not in A.FL_CHAINS
+            compared += 1
+            if contents(t, op) != contents(ref, op):
+                raise MachineryError("race-free streams validated by the spec differ between the direct connection "
+                                     "and %s: %s" % (t["job"]["impl"], t["job"]["tag"]))
+    # the same runs with the Process events dropped: an order must be found (subset)
+    sub = [t for t in good if t["job"]["impl"] != "cl" and t["verdict"] == "ok" and len(t["ev"]) <= 70]
+    R.shuffle(sub)
+    sub = sub[:24 if quick else 300]
+    for t, (err, _p) in zip(sub, _validate(res, [_strip(t, offers=False) for t in sub], chunk=6)):
+        if err != "ok":
+            raise MachineryError("inferred-order mode rejects an adapter run accepted in linear mode: %s" % t["job"]["tag"])
+    res.add_traces(len(sub))
+    # canaries on the adapter runs: the previous response returned again, a response taken from the
+    # other port, a memory call lost, a wrong final byte
+    can, kinds = [], collections.Counter()
+    for t in good:
+        if t["job"]["impl"] == "cl" or t["verdict"] != "ok":
+            continue
+        ev = t["ev"]
+        rd = [i for i, e in enumerate(ev) if e["k"] == "dlv" and e["t"] == 0]
+        c = None
+        if kinds["previous-response"] <= min(kinds["lost-call"], kinds["final"]):
+            for a, b in zip(rd, rd[1:]):
+                nb = 4 if ev[b]["n"] == 0 else ev[b]["n"]
+                if ev[a]["p"] == ev[b]["p"] and ev[a]["d"][:nb] != ev[b]["d"][:nb]:
+                    c = copy.deepcopy(t)
+                    c["ev"][b]["d"] = list(ev[a]["d"])
+                    kinds["previous-response"] += 1
+                    break
+        if c is None and kinds["lost-call"] <= kinds["final"]:
+            pr = [i for i, e in enumerate(ev) if e["k"] == "proc" and e["op"] != "rd"]
+            if pr:
+                c = copy.deepcopy(t)
+                del c["ev"][pr[-1]]
+                kinds["lost-call"] += 1
+        if c is None:
+            c = copy.deepcopy(t)
+            c["final"][R.randrange(len(c["final"]))] ^= 0x10
+            kinds["final"] += 1
+        can.append(c)
+        if len(can) >= 30:
+            break
+    if can:
+        cv = _validate(res, can)
+        if any(v[0] == "ok" for v in cv):
+            raise MachineryError("corrupted adapter runs accepted by MagicMemTrace")
+    if (len(kinds) < 3 or not sub) and not res.violations:
+        raise MachineryError("adapter canaries / inferred subset could not be built: %s, %d" % (dict(kinds), len(sub)))
+    res.note("adapters", {"groups": ngroups, "race_free_runs_compared_with_direct_connection": compared,
+                          "validated_again_with_inferred_process_order": len(sub), "canaries_rejected": dict(kinds)})
+    for t in good:
+        if t["job"]["impl"] == "fl2cl":
+            res.sample({"kind": "adapter run (first 9 events)", "impl": IMPL_NAMES["fl2cl"], "events": t["ev"][:9]})
+            break
+
 
 
 def _synthetic_canaries(res):
@@ -912,31 +1150,46 @@ def run(res, tier):
     # the implementations are driven.  The pool is forked first, before any thread exists.
     global _POOL
     import c18_drv  # noqa: F401  (imported before the fork so that the workers share it)
+    import c18_adp  # noqa: F401
+    import c18_pipe  # noqa: F401
+    import c18_pipecheck as PC
     ctx = multiprocessing.get_context("fork")
     _POOL = ctx.Pool(os.cpu_count() or 4)
-    bg = ThreadPoolExecutor(max_workers=1)
+    bg = ThreadPoolExecutor(max_workers=2)
     s2c_fut = []
+    pend = []
     try:
         t0 = time.time()
         s2c_in = _s2c_inputs(quick)
         s2c_fut = [_POOL.apply_async(_s2c_simulate, (i,)) for i in s2c_in]
         mc_fut = bg.submit(_model_check_compute, quick)
+        # delay pipes / StallCL: model checking in a second background thread; the graph walks (one
+        # task per configuration: TLC dump + replay on the real classes) and the random histories
+        # are tasks of the worker pool
+        pipe_mc_fut = bg.submit(PC.mc_compute, quick)
+        walk_fut = _POOL.map_async(PC.walk_job, PC.walk_configs(quick), chunksize=1)
+        hist_fut = _POOL.map_async(PC.history_job, PC.history_jobs(quick) + PC.canary_jobs(), chunksize=2)
+        pend = [walk_fut, hist_fut]
         good = timed("code_to_spec", _code_to_spec, res, quick)
         timed("inferred_order", _inferred, res, good, quick)
         timed("timing_independence", _timing_independence, res, quick)
         timed("canaries", _canaries, res, good)
+        timed("adapters", _adapters, res, quick)
+        timed("pipe_histories", lambda: PC.histories_record(res, hist_fut.get(3000), quick))
+        timed("pipe_graph_walk", lambda: PC.walk_record(res, walk_fut.get(3000)))
         t1 = time.time()
         sims = [f.get(3000) for f in s2c_fut]
         timed("spec_to_code_replay", _spec_to_code, res, quick, s2c_in, sims)
         jobs, runs = mc_fut.result()
         _model_check_record(res, jobs, runs)
+        PC.mc_record(res, *pipe_mc_fut.result())
         ph["background_model_check_and_simulate_total"] = round(time.time() - t0, 1)
         ph["waited_for_background_after_foreground"] = round(time.time() - t1, 1)
     finally:
         # orderly also when a phase raised: let the background work finish, so that no TLC process
         # and no scratch directory is left behind
         bg.shutdown(wait=True)
-        for f in s2c_fut:
+        for f in s2c_fut + pend:
             f.wait(3000)
         _POOL.close()
         _POOL.join()
@@ -947,12 +1200,21 @@ def run(res, tier):
              "code->spec: one case = one (memory, port count, latency, stall probability, per-message source and "
              "sink delays, request streams) run; streams mix reads/writes of 1-4 bytes around two hot addresses, "
              "word AMOs of all nine kinds on shared addresses, INV/FLUSH (CL); a case is distinct by its "
-             "configuration and streams")
+             "configuration and streams; adapters: one case = one (chain, port count, timing, streams) run, groups of "
+             "runs share race-free streams with a direct connection; delay pipes: every edge of the dumped state graph "
+             "of DelayPipe.tla per (kind, delay 0..3, StallCL or not, block order) is one replayed case, one history = "
+             "one (kind, delay, stall probability/seed, block order, bursty offer pattern) run")
     res.assume("AMOs are word-sized (len = 0); sub-word AMOs are outside the statement")
     res.assume("32-bit data / 8-bit opaque message types; addresses inside a 16-24 byte window at 0x1000 of an "
                "8 KiB memory, the rest is checked to stay zero")
     res.assume("response fields len/test and the data of write responses are not constrained by the statement; "
                "of a sub-word read response only the requested bytes are compared")
     res.assume("stream.MagicMemoryRTL asserts on INV/FLUSH, so these are only sent to MagicMemoryCL")
+    res.assume("delay pipes: the exact ready timing (slots, inelastic hold, delay-0 bypass, one StallCL draw per rdy() "
+               "evaluation) is a model of DelayPipeCL.py / StallCL.py, not fixed by the statement; order, content, "
+               "conservation, not-before-delay and occupancy are the statement-level clauses")
+    res.assume("adapter chains that cannot be constructed on the tree under test carry no request stream and are "
+               "recorded, not judged; FL masters use latency >= 1 (a 0-latency memory behind the combinational FL "
+               "adapter is a scheduling loop); an FL master observes only the returned data")
     res.assume("a memory call that serves no accepted request is a violation only when no processing order "
                "of the accepted requests explains the responses and the final image (inferred-order mode)")
